@@ -299,6 +299,12 @@ def run_check(mod, tier="quick", batch_seed=0, budget_s=None, n_procs=None, max_
             if exit_code == EXIT_OK:
                 exit_code = EXIT_HARNESS
 
+    n_out = len(outcomes)
+    n_uninf = sum(1 for o in outcomes.values() if o.get("status") == "uninformative")
+    if exit_code == EXIT_OK and n_out and (n_out - n_uninf) < max(2, 0.1 * n_out):
+        print(f"HARNESS-ERROR property={prop} only {n_out - n_uninf} of {n_out} scenarios were informative - the check explored "
+              "(almost) nothing and must not report success", flush=True)
+        exit_code = EXIT_HARNESS
     if harness and exit_code == EXIT_OK:
         exit_code = EXIT_HARNESS
     for k, h in sorted(harness.items())[:5]:
